@@ -140,3 +140,13 @@ func init() {
 	stages["walk"] = showWalk
 	stages["lit"] = showLit
 }
+
+// resulttext: the complete observable result of Compile, Parse and Scan (error texts included),
+// used to compare fresh processes with each other (C14).
+func init() {
+	stages["resulttext"] = func(f []string) string {
+		sql, err := compileWith(f)
+		_, perr := parser.Parse(unhx(f[0]))
+		return hx(fmt.Sprintf("%q|%v|%v|%s", sql, err, perr, showTokens(parser.Scan(unhx(f[0])))))
+	}
+}
